@@ -402,7 +402,10 @@ func c05ActionMap(p *Prog, r *Report, rr *reqRoles) {
 	}
 	// the increment really is +1 on the stored count
 	incOK := 0
-	eachInstr(rr.handleErr, func(in ssa.Instruction) {
+	var reqMethods []*ssa.Function
+	reqMethods = append(reqMethods, p.methodsOf(rr.req)...)
+	for _, m := range reqMethods {
+		eachInstr(m, func(in ssa.Instruction) {
 		if st, ok := in.(*ssa.Store); ok {
 			if fa, ok := st.Addr.(*ssa.FieldAddr); ok && fieldOfAddr(fa) == rr.retryCountF {
 				if bo, ok := st.Val.(*ssa.BinOp); ok && bo.Op.String() == "+" {
@@ -416,7 +419,8 @@ func c05ActionMap(p *Prog, r *Report, rr *reqRoles) {
 				incOK = -100
 			}
 		}
-	})
+		})
+	}
 	r.check(incOK >= 2, rule, "retry-count-increment", p.Pos(rr.handleErr.Pos()), "retryCount = retryCount + 1", "retry count is not incremented by one at each retry")
 }
 
